@@ -295,3 +295,30 @@ Example c20_example_send_fails :
   let res := call (ex_cfg false) (Some (BRet [1; 2; 3; 4])) ex_scope 1 2 (ERet ex_deny) (Some (1, "OSError")) None in
   List.length (messages res) = 2 /\ r_end res = Raised "OSError" /\ app_called res = false.
 Proof. vm_compute. auto. Qed.
+
+(* The incoming scope is an input like any other: it may already carry this very guard
+   object under "rbacx_guard" (an outer inject-mode instance sharing the guard ran
+   first), or some other object (another Guard, a stub).  The hypotheses of the
+   theorems above do not mention that key, so they apply; concretely: a denial is
+   still the generic 403 and downstream is not invoked, a raising builder still
+   blocks downstream, and an allowed request goes through with the guard attached. *)
+Definition ex_scope_same : scope := [("type", SV (VStr "http")); ("rbacx_guard", SGuard)].
+Definition ex_scope_other : scope := [("rbacx_guard", SObj 7); ("type", SV (VStr "http"))].
+
+Example c20_example_guard_already_in_scope :
+  scope_get "type" ex_scope_same = Some (SV (VStr "http")) /\
+  scope_get "type" ex_scope_other = Some (SV (VStr "http")) /\
+  r_events (call (ex_cfg false) (Some (BRet [10; 11; 12; 13])) ex_scope_same 1 2 (ERet ex_deny) None None)
+  = [EvBuild ex_scope_same; EvEval 10 11 12 13;
+     EvSend 2 (MStart 403 [("content-type", "application/json; charset=utf-8"); ("content-length", "23")]);
+     EvSend 2 (MBody "{""detail"": ""Forbidden""}")] /\
+  app_called (call (ex_cfg false) (Some (BRet [10; 11; 12; 13])) ex_scope_other 1 2 (ERet ex_deny) None None) = false /\
+  call (ex_cfg false) (Some (BRaise "RuntimeError")) ex_scope_same 1 2 (ERet ex_permit) None None
+  = {| r_events := [EvBuild ex_scope_same]; r_scope := ex_scope_same; r_end := Raised "RuntimeError" |} /\
+  r_events (call (ex_cfg false) (Some (BRet [10; 11; 12; 13])) ex_scope_other 1 2 (ERet ex_permit) None None)
+  = [EvBuild [("rbacx_guard", SGuard); ("type", SV (VStr "http"))]; EvEval 10 11 12 13;
+     EvApp [("rbacx_guard", SGuard); ("type", SV (VStr "http"))] 1 2] /\
+  (* an opaque object as the scope's type is not "http": pass-through *)
+  r_events (call (ex_cfg false) (Some (BRaise "RuntimeError")) [("type", SGuard)] 1 2 (ERet ex_deny) None None)
+  = [EvApp [("type", SGuard); ("rbacx_guard", SGuard)] 1 2].
+Proof. vm_compute. repeat split. Qed.
